@@ -123,9 +123,9 @@ PROPS.update({
         ["c02", "pg02", "pgm"]),
     "C03": aut_prop("translation_validation",
         "Theorem c03_accepts_iff_constraints: on an automaton passing both certificates, pattern i is accepted under a valuation iff all constraints "
-        "of pattern i are true - i.e. exactly when the one-pattern matcher's constraints hold. Strings, down to the matchers: Theorem "
-        "c03_string_many_equals_naive - the modelled run on a certified automaton and the modelled NaiveManyMatcher report every non-empty pattern "
-        "at exactly the same host positions (both = the occurrence specification). The certificates are evaluated per real automaton; ManyMatcher and "
+        "of pattern i are true - i.e. exactly when the one-pattern matcher's constraints hold. Strings and matrices, down to the matchers: Theorems "
+        "c03_string_many_equals_naive / c03_matrix_many_equals_naive - the modelled run on a certified automaton and the modelled NaiveManyMatcher report "
+        "every pattern at exactly the same host positions (both = the occurrence specification). The certificates are evaluated per real automaton; ManyMatcher and "
         "NaiveManyMatcher are compared as sets of (pattern, bindings) incl. the match data on every generated host (strings, matrices, port graphs, "
         "table domain with six tree strategies).",
         "verified certificates (sound + complete) on the real automaton + Coq proof that run and naive matcher both equal the occurrence specification "
@@ -155,13 +155,13 @@ PROPS.update({
         "verified structural checker (Coq soundness proof) run on the dump of every real automaton", ["c09", "tab09"]),
     "C05": {"subs": ["c05", "pg05", "pgm"], "level": "exploration", "rule": AUT_RULE + "; for C05 each (pattern, host) pair is one case",
         "trusted_base": AUT_TB, "assumptions": AUT_ASSUME, "timeout": 3000,
-        "explanation": "Strings: Theorems c05_string_single_exact / _match_exists_exact / _naive_exact - the modelled SinglePatternMatcher reports "
-                       "exactly the occurrences (every reported binding is anchored at an occurrence and binds all constraint keys; every occurrence is "
-                       "reported), match_exists is true iff an occurrence exists, NaiveManyMatcher numbers by position. Matrices: soundness half only. "
+        "explanation": "Strings and matrices: Theorems c05_{string,matrix}_single_exact / _match_exists_exact / _naive_exact - the modelled SinglePatternMatcher "
+                       "reports exactly the occurrences (every reported binding is anchored at an occurrence and binds all constraint keys; every occurrence is "
+                       "reported), match_exists is true iff an occurrence exists, NaiveManyMatcher numbers by position. "
                        "Multiplicity and order are not covered by a theorem. SinglePatternMatcher::find_matches / match_exists and NaiveManyMatcher are "
                        "compared with the extracted model (exact sequences) and with an independent occurrence scan (exact anchor lists, order included); "
                        "pattern -> constraint vectors are compared exactly. Port graphs: oracle only, with the known classes.",
-        "technique": "Coq proof on the model of the single-pattern matcher (strings: exact; matrices: soundness) + differential correspondence with that model + occurrence oracle"},
+        "technique": "Coq proof on the model of the single-pattern matcher (strings and matrices: exact set of anchors) + differential correspondence with that model + occurrence oracle"},
     "C11": {"subs": ["c11", "pg11", "pgm"], "level": "proof",
         "rule": "random patterns (as for C01) inside sets of 1-4 patterns; each pattern is matched against its own instantiation (variables instantiated "
                 "consistently, also with equal characters for different variables; matrix holes filled), then along a random history of host extensions "
